@@ -31,6 +31,10 @@ THEOREMS = [
     "Sched.zero_weight_never_free",
     "Sched.weights_of_any_numeric_type",
     "Sched.integer_weights_raised_pinned",
+    "Sched.default_cycles_pos",
+    "Sched.default_cycles_given",
+    "Sched.default_step_attempts_a_move",
+    "Sched.default_cycles_pinned_empty_box",
     "Sched.forced_cycles_count",
     "Sched.free_slot_measure",
     "Sched.free_slots_independent_draws",
@@ -956,5 +960,104 @@ class RunDueness(common.Suite):
         return f"segs={len(case['segs'])}:{case['entry']}:{'restored' if case.get('roundtrip') else 'fresh'}:{case.get('driver', 'base')}"
 
 
+# ------------------------------------------------------------------------------------------------ default cycles
+class DefaultCycles(common.Suite):
+    """the number of cycles a simulation is built with: `max_cycles` as given, `max(len(atoms), 1)` when left out (the
+    empty box of a grand-canonical run included); one step with a probe move that is due then attempts that many"""
+
+    name = "default-cycles"
+
+    def cases(self, rng, tier):
+        n = 60 if tier == "quick" else 600
+        for i in range(n):
+            natoms = 0 if i % 4 == 0 else rng.randint(0, 6)
+            given = None if i % 3 != 2 else rng.randint(1, 7)
+            yield {"natoms": natoms, "given": given, "cls": rng.choice(["MonteCarlo", "Canonical", "GrandCanonical", "Isobaric"]),
+                   "seed": rng.randrange(2**31)}
+
+    def real(self, case):
+        import warnings
+
+        import numpy as np
+        from ase import Atoms
+        from ase.calculators.calculator import Calculator, all_changes
+        from quansino.mc.canonical import Canonical
+        from quansino.mc.core import MonteCarlo
+        from quansino.mc.gcmc import GrandCanonical
+        from quansino.mc.isobaric import Isobaric
+
+        class Zero(Calculator):
+            implemented_properties = ("energy", "forces", "stress")
+
+            def calculate(self, atoms=None, properties=("energy",), system_changes=all_changes):
+                super().calculate(atoms, properties, system_changes)
+                self.results = {"energy": 0.0, "forces": np.zeros((len(atoms), 3)), "stress": np.zeros(6)}
+
+        atoms = Atoms("Ar" * case["natoms"], positions=[[1.0 + i, 1.0, 1.0] for i in range(case["natoms"])],
+                      cell=[9.0, 9.0, 9.0], pbc=True)
+        atoms.calc = Zero()
+        kw = {"seed": case["seed"]}
+        if case["given"] is not None:
+            kw["max_cycles"] = case["given"]
+        cls = case["cls"]
+        with warnings.catch_warnings():
+            warnings.simplefilter("ignore")
+            if cls == "MonteCarlo":
+                kw.setdefault("max_cycles", 1)  # the base class has no default derived from the atoms
+                mc = MonteCarlo(atoms, **kw)
+            elif cls == "Canonical":
+                mc = Canonical(atoms, temperature=300.0, **kw)
+            elif cls == "Isobaric":
+                mc = Isobaric(atoms, temperature=300.0, pressure=0.0, **kw)
+            else:
+                mc = GrandCanonical(atoms, exchange_atoms=Atoms("Ar"), temperature=300.0, chemical_potential=0.0,
+                                    number_of_exchange_particles=case["natoms"], **kw)
+            for k in list(mc.moves):
+                del mc.moves[k]
+            attempts = []
+
+            class Probe:
+                def __call__(self_inner, context):
+                    attempts.append(1)
+                    return False
+
+                def on_atoms_changed(self_inner, a, r):
+                    pass
+
+                def on_cell_changed(self_inner, c):
+                    pass
+
+            mc.add_move(Probe(), criteria=_Crit(), name="probe")
+            mc.validate_simulation()
+            for _ in mc.step():
+                pass
+        return {"cycles": int(mc.max_cycles), "attempts": len(attempts)}
+
+    def model_lines(self, case):
+        if case["cls"] == "MonteCarlo":
+            return [f"defcycles {case['given'] if case['given'] is not None else 1} {case['natoms']}"]
+        return [f"defcycles {'-' if case['given'] is None else case['given']} {case['natoms']}"]
+
+    def model_obs(self, case, outs):
+        w = outs[0].split()
+        if w[0] != "ok":
+            return {"cycles": outs[0]}
+        return {"cycles": int(w[1]), "attempts": int(w[1])}
+
+    def oracle(self, case, obs):
+        if "exception" in obs:
+            return [("default-cycles:unexpected-exception:" + obs["exception"], obs["message"])]
+        out = []
+        if obs["cycles"] < 1:
+            out.append(("default-cycles:no-cycle", f"{case['cls']} on {case['natoms']} atoms, max_cycles "
+                        f"{'left out' if case['given'] is None else case['given']}: {obs['cycles']} cycles per step"))
+        if obs["attempts"] != obs["cycles"]:
+            out.append(("default-cycles:attempts", f"{obs['attempts']} attempts in a step of {obs['cycles']} cycles"))
+        return out
+
+    def classify(self, case, obs):
+        return f"{case['cls']}:{'empty' if case['natoms'] == 0 else 'atoms'}:{'default' if case['given'] is None else 'given'}"
+
+
 def suites(tier):
-    return [YieldMoves(), Step(), AddMove(), RngTwin(), Frequency(), RunDueness()]
+    return [YieldMoves(), Step(), AddMove(), RngTwin(), Frequency(), RunDueness(), DefaultCycles()]
